@@ -26,7 +26,7 @@ import time
 import traceback
 from fractions import Fraction
 
-from vlib.core import DISCHARGED, FAILED, REPO, Ob
+from vlib.core import DISCHARGED, FAILED, UNDECIDED, REPO, Ob
 
 # The repository under verification must come FIRST on sys.path (it may be a mutated scratch copy).  If a
 # replay wrapper already imported src.mesh from its own sys.path[0] we use that module.
@@ -561,6 +561,12 @@ def replay(spec):
         bad = dorfler_case(spec)
         return dict(clauses=sorted({c for c, _ in bad}), details=[list(b) for b in bad[:10]])
     if kind == "grading":
+        # process history: earlier refine_grading calls (other exponents, fresh copies of the same mesh) of the same process
+        for ps in spec.get("prior", []):
+            try:
+                grading_case(dict(spec, sigma=ps, prior=[]))
+            except BaseException:
+                pass
         res = grading_case(spec)
         return dict(clauses=sorted({c for c, _ in res["bad"]}), details=[list(b) for b in res["bad"][:10]],
                     status=res["status"])
@@ -582,16 +588,26 @@ def make_replay_code(spec, clause):
     return REPLAY_TEMPLATE.format(spec=json.dumps(spec), clause=clause)
 
 
-def confirm(spec, clause):
-    """Run the replay snippet in-process; True iff it sets violated (raising counts as a violation)."""
-    code = make_replay_code(spec, clause)
+def _confirm_child(code):
     ns = {}
     try:
         with contextlib.redirect_stdout(io.StringIO()):
             exec(compile(code, "<replay>", "exec"), ns)
     except BaseException:
-        return code, True
-    return code, bool(ns.get("violated"))
+        return True
+    return bool(ns.get("violated"))
+
+
+def confirm(spec, clause):
+    """Run the replay snippet in a freshly forked child (module- or class-level state of the repository left behind by the
+    exploration or by an earlier confirmation must not leak into it); True iff it sets violated (raising counts)."""
+    code = make_replay_code(spec, clause)
+    try:
+        ctx = multiprocessing.get_context("fork")
+        with ctx.Pool(1, maxtasksperchild=1) as p1:
+            return code, bool(p1.apply_async(_confirm_child, (code,)).get(timeout=600))
+    except Exception:
+        return code, _confirm_child(code)
 
 
 # =====================================================================================================
@@ -653,8 +669,12 @@ class Findings:
             for i, f in enumerate(lst):
                 code, ok = confirm(f["spec"], clause)
                 if not ok:
-                    chk.notes.append("explorer: failure {}/{} not confirmed by replay (dropped): {}".format(
-                        group, clause, f["detail"][:300]))
+                    # seen during the exploration but not reproducible from its recorded history in a fresh process: never a
+                    # violation, but not a pass either (state shared between calls that the recorded history does not capture?)
+                    chk.notes.append("explorer: failure {}/{} not confirmed by replay: {}".format(group, clause, f["detail"][:300]))
+                    chk.add(Ob("{}/bounded/{}/{}#unconfirmed{}".format(prop, group, clause, i + 1), UNDECIDED, kind="bounded",
+                               backend="explorer", detail=dict(observed=f["detail"], spec=f["spec"],
+                                                               reason="failure during exploration not reproduced by the replay of its history")))
                     continue
                 failing.add((group, clause))
                 n_failed += 1
@@ -1264,6 +1284,11 @@ def random_histories(n, steps, seed, pool=None, mode="wf", cap=ELEMENT_CAP, own=
     return dict(fails=fails, evals=evals, distinct=len(keys), samples=samples[:3])
 
 
+# the exponents are tried in one process, in varying order: the property quantifies over histories, and refine_grading must not
+# carry anything from one call to the next (third-round seed: class-level cache of h_x**sigma keyed by h_x only)
+SIGMA_ORDERS = ((1, 1.5, 2), (2, 1.5, 1), (1.5, 2, 1), (2, 1, 1.5))
+
+
 def _grading_task(task):
     """Worker: grading cases.  kind 'states': explorer states x sigma; kind 'random': one random history on an
     exact mesh or on a MeshParametrized curve (float coordinates), then refine_grading for every sigma."""
@@ -1284,8 +1309,9 @@ def _grading_task(task):
         init = FAMILIES[fam]
         for h in hists:
             ops = dec_hist(h, S)
-            for sigma in (1, 1.5, 2):
-                spec = dict(kind="grading", init=init.spec(), ops=history_json(ops), sigma=sigma, K=4, **caps)
+            order = SIGMA_ORDERS[len(ops) % len(SIGMA_ORDERS)]
+            for n_prior, sigma in enumerate(order):
+                spec = dict(kind="grading", init=init.spec(), ops=history_json(ops), sigma=sigma, K=4, prior=list(order[:n_prior]), **caps)
                 one(fam, spec, len(ops))
         return _shrink(out)
     _, i, seed, steps, caps = task
@@ -1324,8 +1350,9 @@ def _grading_task(task):
         group, length = "random", len(run.history)
         out["keys"].add(hash(frozenset(run.view.leaves)))
         out["samples"].append(dict(init=init.name, bias=bias, steps=length, leaves=len(run.view.leaves)))
-    for sigma in (1, 1.5, 2):
-        spec = dict(spec0, sigma=sigma, K=4, **caps)
+    order = SIGMA_ORDERS[i % len(SIGMA_ORDERS)]
+    for n_prior, sigma in enumerate(order):
+        spec = dict(spec0, sigma=sigma, K=4, prior=list(order[:n_prior]), **caps)
         one(group, spec, length)
     return _shrink(out)
 
@@ -1475,13 +1502,19 @@ def _run_grading(chk, prop, tier, seed, pool, log):
     keys, samples = set(), []
     t0 = time.time()
     allt = rtasks + tasks
-    for out in (pool.imap_unordered(_grading_task, allt) if pool else map(_grading_task, allt)):
+    # one fresh process per task: the recorded history of a case (its `prior` exponents) is then the whole history of
+    # refine_grading calls of its process, so that a failure that needs earlier calls is reproducible by its replay
+    gpool = multiprocessing.get_context("fork").Pool(NPROC, maxtasksperchild=1) if pool else None
+    for out in (gpool.imap_unordered(_grading_task, allt) if gpool else map(_grading_task, allt)):
         fd.merge_fails(out["fails"])
         which = "random" if out["samples"] else "states"
         tot[which]["evals"] += out["evals"]
         tot[which]["nf"] += out["not_finished"]
         keys |= out["keys"]
         samples.extend(out["samples"])
+    if gpool:
+        gpool.terminate()
+        gpool.join()
     for fam in states:
         fd.mark_checked(fam, GRADING_CLAUSES, 3 * len(states[fam]))
     for g in ["random"] + ["curve-" + c for c in CURVES]:
